@@ -57,8 +57,13 @@ for (ki, ko, tiers, cost, to) in ((1, 1, ("quick", "thorough"), 2, 900), (1, 2, 
                          "compact-size classes) returns exactly that transaction (version, outpoints, script bytes, sequences, values, locktime, empty hash cache); scripts opaque (Script::from_bytes = identity constructor)",
                          cost=cost, tiers=tiers, timeout=to,
                          stubs=("E2 parse models: the input buffer is a list of pieces (bytes, opaque script atoms, compact-size ite pieces); Cursor reads hand back exactly those terms; misaligned reads are outside (undecided)",)))
+for (ki, ko, tiers, cost) in ((1, 1, ("quick", "thorough"), 1), (2, 2, ("quick", "thorough"), 2), (0, 1, ("quick", "thorough"), 1), (3, 2, ("thorough",), 4)):
+    OBLIGATIONS.append(M("C01", f"c01_accessors_k{ki}x{ko}", {"q": "accessors", "k_in": ki, "k_out": ko}, ["Transaction::get_size_impl", "Transaction::satoshis_out", "Transaction::satoshis_in", "Transaction::is_coinbase_impl", "TxIn::is_coinbase_outpoint_impl", "Transaction::get_outpoints_impl"],
+                         f"accessors of a symbolic transaction ({ki} inputs x {ko} outputs, all scalars symbolic, every script length symbolic over all four compact-size classes): size = length of the reference serialisation; "
+                         "output / input totals = sums of the value fields (amounts <= 2^60 each, so that the sums fit 64 bits; an input without a declared value makes the input total undefined); coinbase flag = exactly one input "
+                         "with the all-zero transaction id and index 0xffffffff; outpoints = wire-order transaction id followed by the little-endian index", cost=cost, tiers=tiers))
 EXPLANATION["C01"] += (" E2 (mirsym): Transaction/TxIn/TxOut::to_bytes_impl and get_id_impl MIR vs an independent wire-format encoding, scripts opaque with symbolic length. "
-                       "Parse direction: from_bytes_impl(reference serialisation) == the transaction, 1x1 quick, 1x2 / 2x1 thorough. Not decided: non-canonical/malformed inputs beyond totality (C09), the script codec inside a transaction.")
+                       "Parse direction: from_bytes_impl(reference serialisation) == the transaction, 1x1 quick, 1x2 / 2x1 thorough. c01_accessors_*: size, totals, coinbase flag and outpoints vs the values the serialisation defines. Not decided: non-canonical/malformed inputs beyond totality (C09), the script codec inside a transaction, hex wrappers.")
 
 # ---------------------------------------------------------------- C03
 EXPLANATION["C03"] = ("FORKID sighash preimage. E2 (mirsym): the MIR of sighash_preimage_impl -> sighash_bip143 -> hash_inputs/hash_sequence/hash_outputs and all "
@@ -358,6 +363,21 @@ OBLIGATIONS.append(M("C02", "c02_truncated_direct_push", {"q": "script_parse", "
 OBLIGATIONS.append(M("C02", "c02_script_parse", {"q": "script_parse", "part": "no_direct_truncation"}, ["Script::from_bytes", "Script::if_statement_pass", "Script::read_if_statement", "Script::read_pass", "Script::read_fail", "OpCodes::from_u8 (num_derive)"],
                      "twelve structured script shapes (opcodes; direct pushes of 1, 2, 3, 75 bytes; PUSHDATA1 of 3, 76, 255; PUSHDATA2 of 256; IF/ELSE, NOTIF without ELSE, empty branches, two-level nesting; OP_0 before a push; the empty script) with symbolic payload bytes: parse(reference serialisation) = the structure; the same inputs cut short inside a final OP_PUSHDATA push and three unclosed conditionals must be rejected (truncated DIRECT pushes: see c02_truncated_direct_push)", cost=1,
                      stubs=("E2: content-aware std::io::Cursor over a byte string of known length (read_u8/u16/u32, partial read, position)",)))
+
+for (_k, _tiers, _cost, _to) in ((3, ("quick",), 3, 1800), (4, ("thorough",), 30, 7200)):
+    OBLIGATIONS.append(M("C02", f"c02_script_classes_{_k}", {"q": "script_enum", "max_elems": _k}, ["Script::from_bytes", "Script::if_statement_pass", "Script::read_if_statement", "Script::read_pass", "Script::read_fail", "OpCodes::from_u8 (num_derive)", "Script::to_bytes", "Script::script_bits_to_bytes"],
+                         f"EVERY sequence of at most {_k} elements over 13 element classes (OP_0; direct pushes of 1 and 2 bytes; OP_PUSHDATA1 of 0 and 1 bytes; OP_PUSHDATA2 and OP_PUSHDATA4 of 1 byte - non-minimal forms; OP_IF, OP_NOTIF, OP_ELSE, OP_ENDIF in any "
+                         "order incl. stray / doubled / unclosed; an ordinary opcode; a byte that is no opcode), payload bytes symbolic, plus every cut inside a final OP_PUSHDATA element. Decided per input: accepted => the REAL Script::to_bytes of the "
+                         "parsed script and the serialisation order of the parsed structure are exactly the input bytes; balanced well-formed sequences are accepted; unclosed conditionals and truncated final OP_PUSHDATA pushes are rejected "
+                         "(truncated DIRECT pushes: c02_truncated_direct_push)", cost=_cost, tiers=_tiers, timeout=_to,
+                         stubs=("E2: content-aware std::io::Cursor over a byte string of known length (read_u8/u16/u32, partial read, position)",)))
+
+_REC_FUNCS = ["Signature::get_public_key", "Signature::get_public_key_from_digest", "get_hash_digest", "PublicKey::from_bytes_impl", "PublicKey::from_encoded_point"]
+_REC_BOUNDS = ("both hash choices x recovery info present / absent (message of symbolic length); caller digests of 32, 31, 33 and 0 bytes; signature value, the three recovery booleans and the recovered point symbolic. "
+               "The recovery primitive (recover_verify_key_from_digest[_bytes]) and the SEC1 encoder are uninterpreted: decided is which signature, recovery id and digest reach the primitive and that the returned key is the "
+               "recovered point encoded compressed iff the signature's key-compression marker says so")
+OBLIGATIONS.append(M("C12", "c12_recover_glue", {"q": "recover_glue", "name": "recover_glue_c12"}, _REC_FUNCS, _REC_BOUNDS, cost=1))
+OBLIGATIONS.append(M("C06", "c06_recover_glue", {"q": "recover_glue"}, _REC_FUNCS, _REC_BOUNDS, cost=1))
 
 # ---------------------------------------------------------------- C17 (token level)
 EXPLANATION["C17"] = ("Partial: TOKEN LEVEL only. Text is modelled as a list of tokens separated by single spaces: opcode names and decimal literals are concrete strings (names are the OpCodes variant "
